@@ -118,7 +118,7 @@ def r3(cx):
             return ("if_value", neg, "bool")
         if r[0] == "discr" and r[1][0] == "call" and r[1][1].endswith("Node::parent"):
             return ("has_parent", False, "option")
-        if r[0] == "const":
+        if r[0] == "const" or (r[0] == "discr" and r[1][0] in ("const", "field") and "tracing" in root_str(r)) or "tracing" in root_str(r):
             return ("const", False, "const")
         if r[0] == "local" and r[2] in ("enabled", "interest"):
             return ("neutral", False, "neutral")  # tracing macro temporaries
